@@ -44,7 +44,9 @@ fn gen_ast(rng: &mut Rng) -> Vec<Node> {
             // one `{wide_msg}` anywhere in the template (first, middle or last line): its expansion goes
             // through a scratch buffer shared with the other placeholders
             9 if !v.iter().any(|n| matches!(n, Node::Ph { key: "wide_msg", .. })) && rng.chance(1, 2) => {
-                v.push(Node::Ph { key: "wide_msg", colon: false, align: None, width: None, trunc: false, style: None, alt: None })
+                // (optionally aligned: the padding in front of a right- or centre-aligned message is part of the line)
+                let align = if rng.chance(1, 2) { Some(*rng.pick(&[Align::Left, Align::Center, Align::Right])) } else { None };
+                v.push(Node::Ph { key: "wide_msg", colon: align.is_some(), align, width: None, trunc: false, style: None, alt: None })
             }
             5 if v.len() < 12 && rng.chance(1, 2) => v.push(Node::NL),
             _ => {
@@ -192,18 +194,33 @@ fn reference(ast: &[Node], msg: &str, prefix: &str, pos: u64, len: u64, tabw: us
     }
     // the wide element takes what the rest of its line leaves of the terminal; at the very end of a
     // line its padding is dropped
+    let wide_align = ast
+        .iter()
+        .find_map(|n| match n {
+            Node::Ph { key: "wide_msg", align, .. } => Some(align.unwrap_or(Align::Left)),
+            _ => None,
+        })
+        .unwrap_or(Align::Left);
     for alts in lines.iter_mut() {
-        for a in alts.iter_mut() {
+        let mut out: Vec<String> = Vec::new();
+        for a in alts.iter() {
             if let Some(at) = a.find('\u{0}') {
                 let rest = crate::vscreen::cols_of(&a.replace('\u{0}', ""));
                 let left = TERM_WIDTH.saturating_sub(rest);
-                let mut field: String = msg.chars().take(left).chain(std::iter::repeat(' ')).take(left).collect();
-                if at + 1 == a.len() {
-                    field.truncate(field.trim_end().len());
+                // a truncating field of `left` columns, aligned as asked (centre: either rounding)
+                for mut field in ref_field(msg, left, wide_align, true) {
+                    if at + 1 == a.len() {
+                        field.truncate(field.trim_end().len());
+                    }
+                    out.push(a.replace('\u{0}', &field));
                 }
-                *a = a.replace('\u{0}', &field);
+            } else {
+                out.push(a.clone());
             }
         }
+        out.dedup();
+        out.truncate(16);
+        *alts = out;
     }
     lines
 }
